@@ -19,7 +19,7 @@ const (
 // same rules as the tokenizer: single-quoted strings with doubled-quote and
 // backslash escapes, double-quoted and
 // back-ticked names with doubled delimiters, $tag$...$tag$, -- to the end of the line and
-// /* ... */ without nesting. An unterminated region extends to the end of the
+// /* ... */ without nesting, and triple-quoted strings. An unterminated region extends to the end of the
 // text. Text rewriters (lint fixes, the language server's formatter) use it so
 // that they only ever touch ByteCode bytes.
 func ClassifyBytes(text string) []ByteClass {
@@ -42,6 +42,17 @@ func ClassifyBytesWith(text string, backslashEscapes bool) []ByteClass {
 	for i < n {
 		c := text[i]
 		switch {
+		case c == '\'' && i+2 < n && text[i+1] == '\'' && text[i+2] == '\'':
+			// triple-quoted string: runs to the next three quotes, no escapes
+			end := n
+			for k := i + 3; k+2 < n; k++ {
+				if text[k] == '\'' && text[k+1] == '\'' && text[k+2] == '\'' {
+					end = k + 3
+					break
+				}
+			}
+			mark(i, end, ByteLiteral)
+			i = end
 		case c == '\'' || c == '"' || c == '`':
 			j := i + 1
 			for j < n {
